@@ -409,11 +409,25 @@ PROPS = {
      'level': 'proof',
      'category': 'proof',
      'design_ref': 'DESIGN.md 5/C07, 4.7',
-     'translators': [],
-     'technique': "Lean 4 proof over the reals about one generic model of the dense kernels (written once over a class Arith, following each kernel's "
+     'translators': ['metrics'],
+     'technique': "TIE BY THEOREM: the source text of 34 kernels of distances.py is translated to Lean on every run (harness/translate_metrics.py -> "
+                  "Gen/MetricKernels.lean, over the model's own generic carrier Arith) and each translation is proved memory safe and equal to the hand-written "
+                  "model for every input (kernel_*_refines); the translator is validated by executing its output over float64 against numba and, bit for bit, against the model. "
+                  "Lean 4 proof over the reals about one generic model of the dense kernels (written once over a class Arith, following each kernel's "
                   'loop and branch structure) + the same term executed over float64 by the driver against the real numba kernels under the float '
                   'tolerance rule + real kernels against an independent float64 reference (scipy / definition)',
-     'text': 'Lean theorems <metric>_spec / _symm / _self / _defined over R for euclidean, squared_euclidean, manhattan, chebyshev (IsGreatest), '
+     'text': 'TIE TO THE CODE by theorem: harness/translate_metrics.py re-reads the source text of distances.py on every run and regenerates '
+             'Gen/MetricKernels.lean (Option monad, bounds-checked loads, fuel loops, same conventions as the model: 0.0 / 1.0 literals, k.0 -> ofNat k, '
+             'e**2 -> e*e, np.sqrt/abs/log2/arccos/max/min/pi/FLOAT32_MAX -> Arith fields, == via BEq, < / <= decidable); Props/C07.lean proves '
+             'kernel_<name>_refines for euclidean, squared_euclidean, manhattan, chebyshev, minkowski, standardised_euclidean, weighted_minkowski, cosine, '
+             'alternative_cosine, dot, alternative_dot, true_angular, correlation, hamming, canberra, bray_curtis, jaccard, alternative_jaccard, matching, '
+             'dice, kulsinski, rogers_tanimoto, russellrao, sokal_michener, sokal_sneath, yule, hellinger, alternative_hellinger, tsss, haversine and the four '
+             'correction ufuncs: for ALL x y with x.size = y.size and fuel >= x.size + 1, GenMetric.<name> fuel x y = some (Metrics.<name> x.toList y.toList) '
+             '(no out-of-bounds load, termination, same value) on EVERY carrier Arith (no arithmetic law used; counting kernels under CountLaws), and '
+             'kernel_euclidean_spec / kernel_cosine_symm_range / kernel_jaccard_real restate theorems of this file on the translated source; a change '
+             'to a kernel changes Gen/MetricKernels.lean and the proofs are re-checked (mutation self-test: dropping np.abs in manhattan, == -> <= in a '
+             'zero-norm guard, swapping norm_x / norm_y, altering a FLOAT32_MAX branch each break the build; renaming a local does not). '
+             'Lean theorems <metric>_spec / _symm / _self / _defined over R for euclidean, squared_euclidean, manhattan, chebyshev (IsGreatest), '
              'minkowski (real powers), cosine (zero-norm branches; range [0,2] by Cauchy-Schwarz), dot (unit norm), true_angular (similarity-like: '
              'identical non-zero -> 1; spec on <x,y> > 0, the FLOAT32_MAX sentinel region stated as the code is), correlation (= cosine of the centred '
              'vectors; the dot_product == 0 guard dominates the division), hellinger (clamp max(.,0) makes the sqrt defined whatever the quotient rounds '
@@ -423,15 +437,22 @@ PROPS = {
              'executed over float64 by the driver (`metric <kernel> | x | y [| p]`) and compared with the real kernels (22 named kernels) on random / '
              'small-integer / 0-1 / identical / scaled / zero / disjoint float32 pairs under refmetrics.close; the real kernels of every public name are '
              'compared with an independent float64 reference, argument swap, identical inputs and NaN-freedom checked on generated and adversarial pairs',
-     'note': 'trusted: Lean kernel + {propext, Classical.choice, Quot.sound}; float rounding is outside the theorems (exact real arithmetic): value, '
+     'note': 'trusted: Lean kernel + {propext, Classical.choice, Quot.sound}; the translator harness/translate_metrics.py (numba subset -> Lean over Arith; '
+             'unsupported syntax omits the kernel and breaks its theorem), validated on every run by executing the translated kernels in the native driver '
+             '(gmetric / gcorr) on every generated case against numba under the tolerance rule (translated-kernel:<name>) and against the model bit for bit '
+             '(translated-kernel-vs-model:<name>); the counting kernels (hamming, jaccard, alternative_jaccard, matching, dice, kulsinski, rogers_tanimoto, '
+             'sokal_michener, sokal_sneath, russellrao, yule) are tied under CountLaws (ofNat 0 = 0, ofNat (n+1) = ofNat n + 1, a + 0 = a: true over R, '
+             'countLaws_real) because the code adds 1.0 / 0.0 to a float where the model counts in N; NOT translated (sampled tie only): mahalanobis, '
+             'rankdata / spearmanr, jensen_shannon_divergence, symmetric_kl_divergence, wasserstein_1d, kantorovich, sinkhorn, circular_kantorovich, bit_hamming, '
+             'bit_jaccard; float rounding is outside the theorems (exact real arithmetic): value, '
              'symmetry, identity and NaN under float32 rest on the sampled comparison with the float64 reference under the tolerance rule; theorems '
              'cover 22 kernels, the remaining public names (seuclidean, wminkowski, mahalanobis, haversine, tsss, spearmanr, JS, symmetric KL, '
              'wasserstein_1d, circular_kantorovich, kantorovich, sinkhorn, bit_*) are checked on the real kernels only; the RArith guardedness '
              "formulation is not done (hellinger's clamp is); vectors of equal length, dim < 65536 (uint16 counters, D13); true_angular's sentinel for "
              '<x,y> <= 0 is a recorded finding, excluded from its spec theorem by hypothesis',
      'explanation': 'theorems for all vectors of every dimension over R; the proved term itself runs against numba; real kernels vs float64 reference',
-     'assumptions': ['each numba kernel computes what its hand-written Lean model computes: sampled bit-exactly on generated inputs on every run, not '
-                     'proved',
+     'assumptions': ['harness/translate_metrics.py renders the numba semantics of the translated kernels faithfully up to float rounding (validated by execution '
+                     'against numba and against the model on every run, not proved); the kernels it does not translate are tied to their model by sampling only',
                      'Lean 4.33.0 kernel; theorems may use only propext, Classical.choice, Quot.sound (audited with #print axioms on every run)',
                      'the float32/float64 kernels agree with the exact-arithmetic model up to the tolerance of harness/refmetrics.py (sampled: model '
                      'over float64 vs kernel, kernel vs independent reference)',
@@ -442,12 +463,17 @@ PROPS = {
      'level': 'proof',
      'category': 'proof',
      'design_ref': 'DESIGN.md 5/C09, 4.7',
-     'translators': ['tables'],
-     'technique': 'Lean 4 proof over the reals (correction o surrogate = metric, surrogate strictly monotone, saturation and dead-band statements) about '
+     'translators': ['tables', 'metrics'],
+     'technique': 'tie BY THEOREM of the surrogate kernels and dense correction ufuncs to the source text of distances.py (translated on every run, '
+                  'harness/translate_metrics.py -> Gen/MetricKernels.lean; kernel_*_refines in Props/C07.lean; kernel_cosine_correction / '
+                  'kernel_squared_euclidean_correction here) + Lean 4 proof over the reals (correction o surrogate = metric, surrogate strictly monotone, saturation and dead-band statements) about '
                   'the generic kernel model + decide over the regenerated alternative tables (registry of proved triples keyed by __name__) + the model '
                   'executed over float64 against the real surrogate kernels and correction ufuncs + real surrogates / corrections on generated pairs and '
                   'a sweep of the correction ufuncs over float32 bit patterns',
-     'text': 'Lean theorems: with d = -log2 s, correct_alternative_cosine / _jaccard (d) = 1 - s, correct_alternative_hellinger (d) = sqrt(max(1-s,0)), '
+     'text': 'on the TRANSLATED source text (regenerated each run, proved equal to the model for every input): kernel_cosine_correction - on <x,y> > 0 the '
+             'translated alternative_cosine followed by the translated correct_alternative_cosine returns exactly what the translated cosine returns, all in '
+             'bounds, value < 1; kernel_squared_euclidean_correction - sqrt of the translated squared_euclidean is the translated euclidean and both order '
+             'candidates alike. Lean theorems: with d = -log2 s, correct_alternative_cosine / _jaccard (d) = 1 - s, correct_alternative_hellinger (d) = sqrt(max(1-s,0)), '
              'true_angular_from_alt_cosine (d) = 1 - arccos(min(s,1))/pi for every s > 0; s |-> d strictly decreasing on s > 0, hence surrogate <= '
              "surrogate' <-> metric <= metric' (true_angular: >=); sqrt(squared_euclidean) = euclidean and the order equivalence; at the vector level "
              'alternative_cosine = -log2(cosSim) and cosine = 1 - cosSim on <x,y> > 0, correction(surrogate) = kernel exactly on the live range for '
@@ -458,7 +484,9 @@ PROPS = {
              'inside it; every entry of fast_distance_alternatives and sparse_fast_distance_alternatives (regenerated on every run) must pair a public '
              'name whose named kernel is k with a (surrogate, correction) such that (k, surrogate, correction) is in the registry of proved triples, '
              "decided by kernel evaluation; the model's four surrogate kernels and six correction ufuncs run over float64 against the real ones",
-     'note': 'trusted: Lean kernel + {propext, Classical.choice, Quot.sound}; the tables translator; float rounding of pow / log2 / arccos is outside '
+     'note': 'trusted: Lean kernel + {propext, Classical.choice, Quot.sound}; the tables translator; the metrics translator (validated by executing the '
+             'translated kernels / ufuncs over float64 against numba and bit for bit against the model on every run; the sparse correction ufuncs and sparse '
+             'surrogate kernels are not translated); float rounding of pow / log2 / arccos is outside '
              'the theorems (ufunc sweep + tolerance); the sparse surrogate KERNELS are not modelled here: they compute the same real function of the '
              'accumulators that C08 proves equal to the dense ones (the sparse CORRECTIONS are modelled and proved); dense alternative_jaccard on '
              'disjoint supports evaluates -log2(0) = +inf (IEEE) and is covered by the harness only; order across the saturation boundary needs s > '
